@@ -87,9 +87,16 @@ CHECKS = {
               "substitute_type, perform_type_substitution and TypeConstructor.new modify no object that existed before the call "
               "(neither the generic class definition nor any argument nor any earlier instantiation), return a new "
               "ParameterizedType with exactly the given arguments, the constructor's name, as many supertypes as declared and a "
-              "private constructor copy whose supertypes are the declared ones. The structural clauses (every occurrence "
-              "substituted transitively, empty map gives an equal type, ground map leaves no type variable) are NOT proved: "
-              "bounded comparison with an independent reference substitution on 5 class tables. Also under contract: ParameterizedType.to_variance_free (frame), the five has_type_variables overrides (equal to a recursive definition) and type identity; the bounded part includes a diamond hierarchy, star projections and a type flagged can_infer_type_args."),
+              "private constructor copy whose supertypes are the declared ones. Of 'every occurrence is replaced' the clauses for "
+              "occurrences ONE level deep are proved for all inputs (_get_type_substitution, substitute_type_args; 38 obligations): a "
+              "type variable the map assigns (and the caller's condition lets through) is replaced by its assignment -- as the type "
+              "itself, as a type argument, and inside the bound of a projected type argument (projection kind kept); an instantiation "
+              "in argument position or in a projection bound is re-built (a new object with as many arguments); a bounded variable "
+              "that is not replaced is re-built with its name and variance; anything else is returned as it is. Deeper occurrences "
+              "follow by the same clauses of the nested calls, but that induction, the substitution of the supertypes up the "
+              "hierarchy (it runs under the DEFAULT condition, which the engine does not distinguish from the caller's), 'empty map "
+              "gives an equal type' and 'ground map leaves no type variable' are NOT proved: bounded comparison with an independent "
+              "reference substitution on 6 class tables. Also under contract: ParameterizedType.to_variance_free (frame), the five has_type_variables overrides (equal to a recursive definition) and type identity; the bounded part includes a diamond hierarchy, star projections and a type flagged can_infer_type_args."),
         note=("trusted: deepcopy contract (fresh, same class/name/arity, touches nothing old), allocation model and heap "
               "closure, purity of cond, Valid(t) preconditions; type-map lookups modelled by identity of the key"),
         design='DESIGN.md section 4 (C07)'),
